@@ -24,7 +24,9 @@ CHECKS = {
 
 GW_NOTE = ("Trusts TLC, the projector harness/gwdrv.py (reads attributes only), the payload lexer, and the hand-written "
            "Valid.tla tables used inside the trace spec. Bounded: focus alphabets of ~15-25 concrete lines to depth 4-8; "
-           "random histories of 40 steps; one concrete representative per payload class.")
+           "random histories of 40 steps; one concrete representative per payload class. Re-entrancy: the event callback of the harness "
+           "calls update_fw (presentations) and set_child_value (SET reports) back into the gateway in a third of the histories and in the "
+           "TLC behaviours (Gateway.tla React / GatewayMC WithReact); other re-entrant calls (send, stop) are not modelled.")
 def gw(pid, design, text):
     return dict(level="model_checking", design=design, text=text, note=GW_NOTE,
                 technique="TLC model checking of Gateway.tla (GatewayMC.tla focus runs) + replay of TLC behaviours into the real "
@@ -37,7 +39,8 @@ CHECKS["C12"] = dict(level="model_checking", design="5 C12",
         "medium); TLC checks AtomicReplace (a load after a crash at ANY label, with or without loss of unsynced data, or after any failing "
         "operation, restores exactly the last committed snapshot) and that the next save commits the current state, over all interleavings "
         "with mutations, faults and restarts. The real save_sensors / safe_load_sensors run on a fault-injecting shim: both formats x prior "
-        "on-disk configurations x EVERY operation index x {fail, crash-keep, crash-lose}; operation traces and loaded states are validated by TLC.",
+        "on-disk configurations (incl. a complete stale temp file longer than the next save) x EVERY operation index x {fail, crash-keep, crash-lose}; "
+        "operation traces and loaded states are validated by TLC. A fault-free save that shows fewer than four operations on the shim is a machinery error.",
    note=P_NOTE, technique="TLC model checking of Persist.tla + exhaustive fault-point enumeration of the real save on a shim, traces validated by TLC (PersistTrace.tla)")
 CHECKS["C13"] = dict(level="model_checking", design="5 C13",
    text="LoadRes of Persist.tla is the safe-load contract (main if intact, else intact backup promoted, else empty; total). TLC checks "
@@ -50,7 +53,8 @@ CHECKS["C15"] = dict(level="model_checking", design="5 C15",
    text="Persist.tla includes the periodic schedule (armed / running), failing operations and mutations during serialisation that the dump "
         "notices (raises) or not. TLC checks that a failed attempt leaves the committed state loadable, keeps the dirty flag, never kills the "
         "schedule, and (weak fairness) that an unsaved state is eventually saved. The real SyncTasks timer chain and AsyncTasks save loop run on "
-        "the shim with a failing operation at every index and an inbound message injected at every serialiser call; operation traces, dirty flag, "
+        "the shim with a failing operation at every index, a location that is not writable at the pre-check (action Denied: the attempt ends quietly), and an "
+        "inbound message injected at every serialiser call; operation traces, dirty flag, "
         "re-arming and the post-crash load are validated by TLC.",
    note=P_NOTE + " Contention is simulated by running the message from inside the serialiser, not by a second thread.",
    technique="TLC model checking (safety + liveness) of Persist.tla + fault/contention enumeration on the real schedules, traces validated by TLC")
@@ -66,7 +70,7 @@ CHECKS["C18"] = dict(level="model_checking", design="5 C18",
    text="Config.tla models the cooperative constructor chain as keyword threading (which class takes which option, defaults, observable "
         "effect) and the version floor over (major, minor). TLC enumerates every (class, subset of documented options) and checks the floor "
         "laws; every configuration is constructed for real and each effect read back (timeouts, port, baud, prefixes, retain observed "
-        "through a publish, callback observed through a probe message, tables observed through version-specific probe frames); every "
+        "through a publish, callback observed through a probe message, timeouts also with the value 0, tables observed through version-specific probe frames); every "
         "version string 0..3 x 0..12 x patch absent/0..3 plus invalid ones is given to a gateway and presented by a node. Records validated by TLC.",
    note="Constructors do not connect. 2.0 and 2.1 are behaviourally identical and form one observation class. Strings AwesomeVersion "
         "special-cases ('latest', 'v2') are outside the property's quantifier and not generated.",
@@ -86,7 +90,8 @@ CHECKS["C16"] = dict(level="model_checking", design="5 C16",
         "the pump, producers, the reader thread's connection_lost (with / without error), disconnect() and the connect thread. TLC explores "
         "all interleavings: the repaired design satisfies NoExceptionIntoPump, AtMostOnce, QueueOrder, ExactlyOnceOrDropped; the pinned code "
         "(Snapshot = FALSE) yields the AttributeError. The real methods run under a deterministic line-level scheduler (sys.settrace, one "
-        "baton): every schedule with <= 2 preemptions (thorough: plus random 3-preemption schedules) for five scenarios; the recorded effects "
+        "baton), the poll thread being the one SyncTasks.start() creates: every schedule with <= 2 preemptions (thorough: plus random 3-preemption "
+        "schedules) for nine scenarios (incl. a job that queues a further command while the pump runs it); the recorded effects "
         "are validated by TLC against SendRace.tla with the internal reads as silent steps.",
    note="Switch points are source lines of transport.py / task.py (no byte-code level races inside a line). Connections are fakes (write on a "
         "closed connection raises SerialException). The send lock is not explored (a single pump sends).",
